@@ -20,7 +20,17 @@ const (
 	clsNOMARK
 	clsLOWER
 	clsHOST
+	clsMARKTOK  // a redaction marker followed by a token byte: E2 80 {B9,BA} {01..08}
+	clsMARK2    // marker, printable byte, marker: E2 80 {B9,BA} c E2 80 {B9,BA}
+	clsNEARMARK // a rune next to the markers: E2 80 {B8,BB} (U+2038, U+203B)
 )
+
+// templated classes have a fixed shape: per position either a constant or a set of values
+var classTemplates = map[int][][]byte{
+	clsMARKTOK:  {{0xe2}, {0x80}, {0xb9, 0xba}, {1, 2, 3, 4, 5, 6, 7, 8}},
+	clsMARK2:    {{0xe2}, {0x80}, {0xb9, 0xba}, nil, {0xe2}, {0x80}, {0xb9, 0xba}},
+	clsNEARMARK: {{0xe2}, {0x80}, {0xb8, 0xbb}},
+}
 
 func (in *Interp) classByte(cls int, b *Term) *Term {
 	f := in.tf
@@ -54,6 +64,39 @@ func (in *Interp) symStr(name string, cls, min, max int) Str {
 			panic(in.abort("witness", "missing input "+name))
 		}
 		return mkStr(v.(string))
+	}
+	if tmpl, ok := classTemplates[cls]; ok {
+		// fixed shape: constants where the template has one value, a symbolic byte otherwise
+		f := in.tf
+		b := make([]*Term, len(tmpl))
+		var syms []*Term
+		for i, set := range tmpl {
+			if len(set) == 1 {
+				b[i] = f.Const(8, uint64(set[0]))
+				continue
+			}
+			x := f.Var(8, fmt.Sprintf("%s[%d]", name, i))
+			b[i] = x
+			syms = append(syms, x)
+			var c *Term
+			if set == nil {
+				c = in.classByte(clsREGNN, x)
+				if ps.modelOK {
+					ps.model[x] = 'a'
+				}
+			} else {
+				c = tFalse
+				for _, val := range set {
+					c = f.Or(c, f.Eq(x, f.Const(8, uint64(val))))
+				}
+				if ps.modelOK {
+					ps.model[x] = uint64(set[0])
+				}
+			}
+			ps.assume(in, c)
+		}
+		ps.inputs = append(ps.inputs, inputRec{Name: name, Kind: "str", Terms: b})
+		return Str{B: b}
 	}
 	n := min + ps.choose(in, max-min+1)
 	f := in.tf
